@@ -8,7 +8,12 @@ import mqtt_ref as ref
 class Harness:
     def __init__(self, binary):
         env = dict(os.environ, ASAN_OPTIONS="detect_leaks=0:abort_on_error=0", UBSAN_OPTIONS="print_stacktrace=1")
-        self.p = subprocess.Popen([binary], stdin=subprocess.PIPE, stdout=subprocess.PIPE, stderr=subprocess.PIPE, text=True, bufsize=1, env=env)
+        # stderr goes to an unlinked temporary file: a sanitizer report larger than a pipe buffer must not block the harness
+        import tempfile
+        tdir = os.path.join(os.path.dirname(os.path.dirname(os.path.abspath(__file__))), ".build", "tmp")
+        os.makedirs(tdir, exist_ok=True)
+        self.errf = tempfile.TemporaryFile(mode="w+", prefix="harness-err-", dir=tdir)
+        self.p = subprocess.Popen([binary], stdin=subprocess.PIPE, stdout=subprocess.PIPE, stderr=self.errf, text=True, bufsize=1, env=env)
         self.dead = None
 
     def send(self, line):
@@ -19,10 +24,15 @@ class Harness:
         except (BrokenPipeError, OSError):
             out = ""
         if not out:
-            self.p.wait(); self.dead = (self.p.returncode, self.p.stderr.read()[-3000:]); return None
+            try: self.p.wait(timeout=60)
+            except Exception: self.p.kill(); self.p.wait()
+            self.errf.seek(0); err = self.errf.read()
+            self.dead = (self.p.returncode, (err[:1500] + "\n...\n" + err[-1500:]) if len(err) > 3000 else err); return None
         return out.rstrip("\n")
 
     def close(self):
+        try: self.errf.close()
+        except Exception: pass
         try:
             self.p.stdin.close(); self.p.wait(timeout=10)
         except Exception:
